@@ -1,13 +1,14 @@
 (* C07 — Streaming AEAD is chunking-independent and detects any stream manipulation.
    Statements only; proofs live in proofs/StreamProofs.v, StreamIOProofs.v (short
-   reads), StreamKeyProofs.v (whole reader, keyset, constructors) and
-   StreamKeyExamples.v (inhabiting instances).  The model
+   reads), StreamReduction.v / StreamKeyReduction.v (manipulation as a reduction:
+   segment layer, whole reader, keyset, AES-CTR-HMAC to HMAC), StreamKeyProofs.v
+   (constructors, faults, honest stream) and StreamKeyExamples.v (one instance).  The model
    (model/Stream.v, model/StreamIO.v) follows streamingaead/subtle/noncebased/noncebased.go,
    streamingaead/subtle/aes_{gcm_hkdf,ctr_hmac}.go and streamingaead/decrypt_reader.go.
    The segment cipher (and, for real keys, HKDF / AES-GCM / AES-CTR / HMAC) are
    Section variables; their laws are premises of the theorems. *)
 From Coq Require Import List NArith Bool Arith Lia.
-From Tink Require Import Bytes Stream StreamProofs StreamIO StreamIOProofs StreamKeyProofs StreamKeyExamples.
+From Tink Require Import Bytes Stream StreamProofs StreamIO StreamIOProofs StreamReduction StreamKeyProofs StreamKeyReduction StreamKeyExamples.
 Import ListNotations.
 Open Scope nat_scope.
 
@@ -211,7 +212,13 @@ Proof.
 Qed.
 Print Assumptions C07_guard_too_many_segments.
 
-(* (c) MANIPULATION.  Premise = authenticity of the segment cipher under the
+(* (c) MANIPULATION, IDEAL-DECRYPTER FORM (kept as the lemma the reductions below
+   are built on; its premise cannot hold of a cipher that also satisfies the
+   correctness premise of the round-trip theorems - the law-free statements are
+   C07_manipulation_reduction, C07_key_manipulation_reduction and
+   C07_keyset_manipulation_reduction, where this theorem is applied to the ideal
+   decrypter and the real run is shown equal to the ideal run unless a forgery
+   is presented).  Premise = authenticity of the segment cipher under the
    session key (the only (nonce, ciphertext) pairs that decrypt are those the
    writer produced for the plaintext p; `decs n c = Some s -> c = encs n s`
    strengthened to "and (n, s) is a segment of this stream", which an AEAD
@@ -245,10 +252,10 @@ Qed.
 Print Assumptions C07_manipulation_detected.
 
 (* (c) segment-layer lemma: a reader under whose session key nothing decrypts
-   fails at its first Read (any size) and returns no byte.  That other
-   associated data / another salt DO lead to such a session key (through HKDF
-   with aad as info) is part of C07_key_manipulation_detected below, where the
-   premise "nothing decrypts" is replaced by laws 2 and 3. *)
+   fails at its first Read (any size) and returns no byte.  What other
+   associated data / another salt lead to (through HKDF with aad as info) is
+   part of C07_key_manipulation_reduction below: a dead run, a forgery under the
+   other session key, or an HKDF collision. *)
 Theorem C07_other_session_key_fails :
   forall (decs : bytes -> bytes -> option bytes) (P : rparams),
     r_off P <= r_ctseg P + 1 -> (forall n c, decs n c = None) ->
@@ -335,26 +342,29 @@ Qed.
 (* keyset_read = the same through streamingaead.New(handle) (dr_read).       *)
 (* ====================================================================== *)
 
-(* (c') KEY-LEVEL MANIPULATION.  k is a valid key; ONE stream was encrypted
-   under it: salt, nonce prefix, associated data aad, plaintext p, giving
-   C = header || encode_stream (C07_key_roundtrip).  Laws, all explicit:
-     1. authenticity of the segment AEAD under the session key
-        sk = derive k salt aad: a segment decrypts under (sk, N) only if it
-        is the encryption under the same (sk, N) of the plaintext segment of
-        this stream whose position N encodes;
-     2. for the salt field salt' of the bytes given to the reader and the
-        reader's associated data aad': if derive k salt' aad' <> sk then
-        nothing decrypts under it (nothing was ever encrypted under it);
-     3. HKDF does not collide on these two inputs: (salt', aad') <> (salt, aad)
-        gives another HKDF output (aad is the HKDF info).
-   Then for ANY bytes c' (truncated anywhere, header bytes - length byte, salt,
-   nonce prefix - modified, segments dropped / duplicated / reordered / altered,
-   bytes appended), ANY associated data aad', any I/O behaviour F of the source
-   and ANY Read sizes: nothing panics, the bytes delivered are a prefix of p, a
-   clean EOF is reached only if aad' = aad and c' = C (and then exactly p was
-   delivered), and |segments| + |p| + 1 non-empty Reads always reach EOF or an
-   error.  Laws 2 and 3 are only needed at the (salt', aad') at hand. *)
-Theorem C07_key_manipulation_detected :
+(* (c') MANIPULATION AS A REDUCTION - no authenticity law.  The reader consults
+   the segment decrypter only on the finitely many (nonce, ciphertext) pairs it
+   forms from the bytes it is given (`presented` / `key_presented`, computed by
+   the model).  k is a valid key; ONE stream was encrypted under it: salt, nonce
+   prefix, associated data aad, plaintext p, session key sk = derive k salt aad,
+   ciphertext C = header || encode_stream (C07_key_roundtrip).  The writer's log
+   is the set of triples (sk, nonce_i, seg_enc sk nonce_i segment_i).  The ONLY
+   premise is that the writer's own segments decrypt to themselves (correctness
+   at those finitely many points; it follows from the laws of C07_key_roundtrip).
+   Then for ANY bytes c' (truncated anywhere, header length byte / salt / nonce
+   prefix modified, segments dropped / duplicated / reordered / altered, bytes
+   appended), ANY associated data aad', any I/O behaviour F of the source and
+   ANY Read sizes, EITHER
+     the run is good: nothing panics, the bytes delivered are a prefix of p, a
+     clean EOF is reached only if aad' = aad and c' = C (and then exactly p was
+     delivered), and |segments| + |p| + 1 non-empty Reads reach EOF or an error;
+   OR one of two explicit events is exhibited:
+     FORGERY    a triple (sk', N, c) presented by this very run - sk' = derive k
+                (salt field of c') aad' - decrypts although it is not in the
+                writer's log;
+     COLLISION  HKDF maps (salt field of c', aad') <> (salt, aad) to the
+                writer's HKDF output (aad is the HKDF info). *)
+Theorem C07_key_manipulation_reduction :
   forall (hkdf : hash -> bytes -> bytes -> bytes -> nat -> bytes)
          (gcm_seal : bytes -> bytes -> bytes -> bytes) (gcm_open : bytes -> bytes -> bytes -> option bytes)
          (aes_ctr : bytes -> bytes -> bytes -> bytes) (hmac : hash -> bytes -> bytes -> bytes)
@@ -364,87 +374,211 @@ Theorem C07_key_manipulation_detected :
     let off := k_foff k + hdr_len k in
     let ss := segments seg off p in
     let sk := derive hkdf k salt aad in
-    let C := header k salt prefix ++
-             encode_stream (seg_enc gcm_seal aes_ctr hmac k sk) (k_nonce_size k) prefix seg off p in
+    let SENC := seg_enc gcm_seal aes_ctr hmac k in
+    let SDEC := seg_dec gcm_open aes_ctr hmac k in
+    let nonce_i := fun i => nonce_of (k_nonce_size k) prefix (N.of_nat i) (i + 1 =? length ss) in
+    let C := header k salt prefix ++ encode_stream (SENC sk) (k_nonce_size k) prefix seg off p in
+    let written := fun (sk' : bytes * bytes) (N c : bytes) =>
+                     sk' = sk /\ exists i, i < length ss /\ N = nonce_i i /\ c = SENC sk N (nth i ss []) in
     (N.of_nat (length ss) <= max_segments)%N ->
-    (* law 1 *)
-    (forall N c s, seg_dec gcm_open aes_ctr hmac k sk N c = Some s ->
-       exists i, i < length ss /\
-                 N = nonce_of (k_nonce_size k) prefix (N.of_nat i) (i + 1 =? length ss) /\
-                 s = nth i ss [] /\ c = seg_enc gcm_seal aes_ctr hmac k sk N s) ->
+    (forall i, i < length ss -> SDEC sk (nonce_i i) (SENC sk (nonce_i i) (nth i ss [])) = Some (nth i ss [])) ->
     forall (c' : bytes) (F : option nat) (aad' : bytes) (sizes : list nat),
       let salt' := firstn (k_dk k) (skipn 1 c') in
-      (* law 2 *)
-      (derive hkdf k salt' aad' <> sk ->
-       forall N c, seg_dec gcm_open aes_ctr hmac k (derive hkdf k salt' aad') N c = None) ->
-      (* law 3 *)
-      (salt' <> salt \/ aad' <> aad ->
-       hkdf (k_hash k) (k_main k) salt' aad' (k_dlen k) <> hkdf (k_hash k) (k_main k) salt aad (k_dlen k)) ->
+      let sk' := derive hkdf k salt' aad' in
+      (let '(outb, f) := key_read hkdf gcm_open aes_ctr hmac src read_full k aad' (mkSrc c' F) sizes in
+       f <> Panicked /\ (exists tl, p = outb ++ tl) /\
+       (f = AtEof -> aad' = aad /\ c' = C /\ outb = p) /\
+       (Forall (fun n => 0 < n) sizes -> length ss + length p < length sizes -> f <> Pending)) \/
+      (exists N c s, In (N, c) (key_presented hkdf gcm_open aes_ctr hmac k aad' (mkSrc c' F) sizes) /\
+                     SDEC sk' N c = Some s /\ ~ written sk' N c) \/
+      ((salt' <> salt \/ aad' <> aad) /\
+       hkdf (k_hash k) (k_main k) salt' aad' (k_dlen k) = hkdf (k_hash k) (k_main k) salt aad (k_dlen k)).
+Proof.
+  intros hkdf gcm_seal gcm_open aes_ctr hmac k salt prefix aad p Hv Hs Hp seg off ss sk SENC SDEC nonce_i C written
+         Hb Hcorr c' F aad' sizes salt' sk'.
+  exact (key_manipulation_reduction hkdf gcm_seal gcm_open aes_ctr hmac k salt prefix aad p Hv Hs Hp Hb Hcorr
+           c' F aad' sizes).
+Qed.
+Print Assumptions C07_key_manipulation_reduction.
+
+(* Hence, PER INSTANCE (hypotheses about this one run only): if none of the
+   finitely many triples the run presents is a forgery and HKDF does not collide
+   on the input at hand, the run is good.  Real ciphers meet the hypotheses with
+   overwhelming probability; the toy cipher below meets them outright.
+   (own_segments_decrypt / written / hkdf_collision / key_ciphertext are the
+   premise, the log, the COLLISION event and C of the theorem above.) *)
+Theorem C07_key_manipulation_detected :
+  forall (hkdf : hash -> bytes -> bytes -> bytes -> nat -> bytes)
+         (gcm_seal : bytes -> bytes -> bytes -> bytes) (gcm_open : bytes -> bytes -> bytes -> option bytes)
+         (aes_ctr : bytes -> bytes -> bytes -> bytes) (hmac : hash -> bytes -> bytes -> bytes)
+         (k : skey) (salt prefix aad p : bytes),
+    key_valid k = true -> length salt = k_dk k -> length prefix = nonce_prefix_size ->
+    (N.of_nat (length (segments (k_cseg k - k_tag k) (k_foff k + hdr_len k) p)) <= max_segments)%N ->
+    own_segments_decrypt hkdf gcm_seal gcm_open aes_ctr hmac k salt prefix aad p ->
+    forall (c' : bytes) (F : option nat) (aad' : bytes) (sizes : list nat),
+      let sk' := derive hkdf k (firstn (k_dk k) (skipn 1 c')) aad' in
+      (forall N c, In (N, c) (key_presented hkdf gcm_open aes_ctr hmac k aad' (mkSrc c' F) sizes) ->
+                   seg_dec gcm_open aes_ctr hmac k sk' N c <> None ->
+                   written hkdf gcm_seal aes_ctr hmac k salt prefix aad p sk' N c) ->
+      ~ hkdf_collision hkdf k salt aad c' aad' ->
       let '(outb, f) := key_read hkdf gcm_open aes_ctr hmac src read_full k aad' (mkSrc c' F) sizes in
       f <> Panicked /\ (exists tl, p = outb ++ tl) /\
-      (f = AtEof -> aad' = aad /\ c' = C /\ outb = p) /\
-      (Forall (fun n => 0 < n) sizes -> length ss + length p < length sizes -> f <> Pending).
+      (f = AtEof -> aad' = aad /\ c' = key_ciphertext hkdf gcm_seal aes_ctr hmac k salt prefix aad p /\ outb = p) /\
+      (Forall (fun n => 0 < n) sizes ->
+       length (segments (k_cseg k - k_tag k) (k_foff k + hdr_len k) p) + length p < length sizes -> f <> Pending).
 Proof.
-  intros hkdf gcm_seal gcm_open aes_ctr hmac k salt prefix aad p Hv Hs Hp seg off ss sk C Hb Hauth c' F aad' sizes salt' H2 H3.
-  exact (key_manipulation_detected hkdf gcm_seal gcm_open aes_ctr hmac k salt prefix aad p Hv Hs Hp Hb Hauth
-           c' F aad' sizes H2 H3).
+  intros hkdf gcm_seal gcm_open aes_ctr hmac k salt prefix aad p Hv Hs Hp Hb Hcorr c' F aad' sizes sk' Hnf Hnc.
+  exact (key_manipulation_detected_instance hkdf gcm_seal gcm_open aes_ctr hmac k salt prefix aad p Hv Hs Hp Hb Hcorr
+           c' F aad' sizes Hnf Hnc).
 Qed.
 Print Assumptions C07_key_manipulation_detected.
 
-(* (c'') THE SAME THROUGH THE KEYSET-LEVEL READER.  keys = the enabled keys of
-   the decrypting keyset in order (all valid); law 4: every key ki of the keyset
-   is k itself or rejects the beginning of c': under the session key ki derives
-   from the salt field of c' and aad', and the two nonces its reader forms for
-   segment 0, no prefix of what follows ki's header in c' decrypts (nothing of
-   this stream was produced under the other keys).  The
-   candidate loop with its replaying unreader never turns a manipulated stream
-   into wrong bytes or a clean EOF. *)
+(* the segment layer alone (noncebased.Reader with ANY segment cipher): good, or a
+   presented (nonce, ciphertext) pair decrypts although the writer did not produce it *)
+Theorem C07_manipulation_reduction :
+  forall (encs : bytes -> bytes -> bytes) (decs : bytes -> bytes -> option bytes)
+         (P : rparams) (seg ov : nat) (p : bytes),
+    r_ctseg P = seg + ov -> 0 < seg - r_off P ->
+    let ss := segments seg (r_off P) p in
+    let nonce_i := fun i => nonce_of (r_nonce_size P) (r_prefix P) (N.of_nat i) (i + 1 =? length ss) in
+    (N.of_nat (length ss) <= max_segments)%N ->
+    (forall i, i < length ss -> decs (nonce_i i) (encs (nonce_i i) (nth i ss [])) = Some (nth i ss [])) ->
+    forall (c' : bytes) (F : option nat) (sizes : list nat) (st0 : rst src),
+      new_reader P (mkSrc c' F) = Some st0 ->
+      (let '(outb, f) := drive decs read_full P sizes st0 [] in
+       f <> Panicked /\ (exists tl, p = outb ++ tl) /\
+       (f = AtEof -> c' = encode_stream encs (r_nonce_size P) (r_prefix P) seg (r_off P) p /\ outb = p) /\
+       (Forall (fun n => 0 < n) sizes -> length ss + length p < length sizes -> f <> Pending)) \/
+      (exists N c s, In (N, c) (presented read_full P decs sizes st0) /\ decs N c = Some s /\
+                     ~ exists i, i < length ss /\ N = nonce_i i /\ c = encs N (nth i ss [])).
+Proof.
+  intros encs decs P seg ov p Hct Hpos ss nonce_i Hb Hcorr c' F sizes st0 Hnew.
+  exact (manipulation_reduction encs decs P seg ov Hct Hpos p Hb Hcorr c' F sizes st0 Hnew).
+Qed.
+Print Assumptions C07_manipulation_reduction.
+
+(* (c'') THE SAME THROUGH THE KEYSET-LEVEL READER (streamingaead.New(handle)).
+   keys = the enabled keys of the decrypting keyset in order (all valid).  Third
+   event: DECOY - a key of the keyset other than k accepts, under the session key
+   IT derives from the salt field of c' and aad', the first segment its reader
+   forms (nothing was ever encrypted under the other keys).  The candidate loop
+   with its replaying unreader never turns a manipulated stream into wrong bytes
+   or a clean EOF unless one of the three events is exhibited.
+   (kgood / seg_forgery / hkdf_collision are the three disjuncts of
+   C07_key_manipulation_reduction; first_accept ki = NewDecryptingReader of ki
+   succeeds and seg_dec of ki does not reject the pair read_query returns.) *)
+Theorem C07_keyset_manipulation_reduction :
+  forall (hkdf : hash -> bytes -> bytes -> bytes -> nat -> bytes)
+         (gcm_seal : bytes -> bytes -> bytes -> bytes) (gcm_open : bytes -> bytes -> bytes -> option bytes)
+         (aes_ctr : bytes -> bytes -> bytes -> bytes) (hmac : hash -> bytes -> bytes -> bytes)
+         (k : skey) (salt prefix aad p : bytes) (keys : list skey),
+    key_valid k = true -> length salt = k_dk k -> length prefix = nonce_prefix_size ->
+    (N.of_nat (length (segments (k_cseg k - k_tag k) (k_foff k + hdr_len k) p)) <= max_segments)%N ->
+    (forall ki, In ki keys -> key_valid ki = true) ->
+    own_segments_decrypt hkdf gcm_seal gcm_open aes_ctr hmac k salt prefix aad p ->
+    forall (c' : bytes) (F : option nat) (aad' : bytes) (sizes : list nat),
+      kgood hkdf gcm_seal aes_ctr hmac k salt prefix aad p c' aad' sizes
+            (keyset_read hkdf gcm_open aes_ctr hmac keys aad' (mkSrc c' F) sizes) \/
+      seg_forgery hkdf gcm_seal gcm_open aes_ctr hmac k salt prefix aad p c' F aad' sizes \/
+      hkdf_collision hkdf k salt aad c' aad' \/
+      (exists ki, In ki keys /\ ki <> k /\ first_accept hkdf gcm_open aes_ctr hmac ki aad' (mkSrc c' F)).
+Proof.
+  intros hkdf gcm_seal gcm_open aes_ctr hmac k salt prefix aad p keys Hv Hs Hp Hb Hvs Hcorr c' F aad' sizes.
+  exact (keyset_manipulation_reduction hkdf gcm_seal gcm_open aes_ctr hmac k salt prefix aad p Hv Hs Hp Hb keys Hvs Hcorr
+           c' F aad' sizes).
+Qed.
+Print Assumptions C07_keyset_manipulation_reduction.
+
 Theorem C07_keyset_manipulation_detected :
   forall (hkdf : hash -> bytes -> bytes -> bytes -> nat -> bytes)
          (gcm_seal : bytes -> bytes -> bytes -> bytes) (gcm_open : bytes -> bytes -> bytes -> option bytes)
          (aes_ctr : bytes -> bytes -> bytes -> bytes) (hmac : hash -> bytes -> bytes -> bytes)
          (k : skey) (salt prefix aad p : bytes) (keys : list skey),
-    key_valid k = true -> (forall ki, In ki keys -> key_valid ki = true) ->
-    length salt = k_dk k -> length prefix = nonce_prefix_size ->
-    let seg := k_cseg k - k_tag k in
-    let off := k_foff k + hdr_len k in
-    let ss := segments seg off p in
-    let sk := derive hkdf k salt aad in
-    let C := header k salt prefix ++
-             encode_stream (seg_enc gcm_seal aes_ctr hmac k sk) (k_nonce_size k) prefix seg off p in
-    (N.of_nat (length ss) <= max_segments)%N ->
-    (forall N c s, seg_dec gcm_open aes_ctr hmac k sk N c = Some s ->
-       exists i, i < length ss /\
-                 N = nonce_of (k_nonce_size k) prefix (N.of_nat i) (i + 1 =? length ss) /\
-                 s = nth i ss [] /\ c = seg_enc gcm_seal aes_ctr hmac k sk N s) ->
+    key_valid k = true -> length salt = k_dk k -> length prefix = nonce_prefix_size ->
+    (N.of_nat (length (segments (k_cseg k - k_tag k) (k_foff k + hdr_len k) p)) <= max_segments)%N ->
+    (forall ki, In ki keys -> key_valid ki = true) ->
+    own_segments_decrypt hkdf gcm_seal gcm_open aes_ctr hmac k salt prefix aad p ->
     forall (c' : bytes) (F : option nat) (aad' : bytes) (sizes : list nat),
-      let salt' := firstn (k_dk k) (skipn 1 c') in
-      (derive hkdf k salt' aad' <> sk ->
-       forall N c, seg_dec gcm_open aes_ctr hmac k (derive hkdf k salt' aad') N c = None) ->
-      (salt' <> salt \/ aad' <> aad ->
-       hkdf (k_hash k) (k_main k) salt' aad' (k_dlen k) <> hkdf (k_hash k) (k_main k) salt aad (k_dlen k)) ->
-      (* law 4 *)
-      (forall ki, In ki keys ->
-         ki = k \/
-         forall last c, (exists b, skipn (hdr_len ki) c' = c ++ b) ->
-           seg_dec gcm_open aes_ctr hmac ki (derive hkdf ki (firstn (k_dk ki) (skipn 1 c')) aad')
-                   (nonce_of (k_nonce_size ki) (firstn nonce_prefix_size (skipn (1 + k_dk ki) c')) 0%N last) c
-           = None) ->
+      let sk' := derive hkdf k (firstn (k_dk k) (skipn 1 c')) aad' in
+      (forall N c, In (N, c) (key_presented hkdf gcm_open aes_ctr hmac k aad' (mkSrc c' F) sizes) ->
+                   seg_dec gcm_open aes_ctr hmac k sk' N c <> None ->
+                   written hkdf gcm_seal aes_ctr hmac k salt prefix aad p sk' N c) ->
+      ~ hkdf_collision hkdf k salt aad c' aad' ->
+      (forall ki, In ki keys -> ki = k \/ ~ first_accept hkdf gcm_open aes_ctr hmac ki aad' (mkSrc c' F)) ->
       let '(outb, f) := keyset_read hkdf gcm_open aes_ctr hmac keys aad' (mkSrc c' F) sizes in
       f <> Panicked /\ (exists tl, p = outb ++ tl) /\
-      (f = AtEof -> aad' = aad /\ c' = C /\ outb = p) /\
-      (Forall (fun n => 0 < n) sizes -> length ss + length p < length sizes -> f <> Pending).
+      (f = AtEof -> aad' = aad /\ c' = key_ciphertext hkdf gcm_seal aes_ctr hmac k salt prefix aad p /\ outb = p) /\
+      (Forall (fun n => 0 < n) sizes ->
+       length (segments (k_cseg k - k_tag k) (k_foff k + hdr_len k) p) + length p < length sizes -> f <> Pending).
 Proof.
-  intros hkdf gcm_seal gcm_open aes_ctr hmac k salt prefix aad p keys Hv Hvs Hs Hp seg off ss sk C Hb Hauth
-         c' F aad' sizes salt' H2 H3 H4.
-  exact (keyset_manipulation_detected hkdf gcm_seal gcm_open aes_ctr hmac k salt prefix aad p keys Hv Hvs Hs Hp Hb
-           Hauth c' F aad' sizes H2 H3 H4).
+  intros hkdf gcm_seal gcm_open aes_ctr hmac k salt prefix aad p keys Hv Hs Hp Hb Hvs Hcorr c' F aad' sizes sk' Hnf Hnc Hnd.
+  exact (keyset_manipulation_detected_instance hkdf gcm_seal gcm_open aes_ctr hmac k salt prefix aad p Hv Hs Hp Hb keys Hvs
+           Hcorr c' F aad' sizes Hnf Hnc Hnd).
 Qed.
 Print Assumptions C07_keyset_manipulation_detected.
 
+(* (c-hmac) AES-CTR-HMAC: THE REDUCTION BOTTOMS OUT IN AN HMAC FORGERY.
+   aes_ctr_hmac.go: segment = AES-CTR(aesKey, nonce, plaintext) || HMAC(hmacKey,
+   nonce || ciphertext body)[:tagSize].  maced hk' x = the writer authenticated x
+   under hk' (hk' = its HMAC key and x = nonce_i || body_i for a segment of the
+   stream).  A segment that decrypts under (sk', N) - N of nonce size 16 - without
+   being in the writer's log carries a tag that is a valid truncated HMAC, under
+   the HMAC half of sk', of a message the writer never authenticated under that
+   key - unless sk' shares the HMAC half with sk but not the AES half (a partial
+   HKDF collision, only possible for (salt', aad') <> (salt, aad)). *)
+Theorem C07_ctrhmac_forged_segment_is_hmac_forgery :
+  forall (hkdf : hash -> bytes -> bytes -> bytes -> nat -> bytes)
+         (gcm_seal : bytes -> bytes -> bytes -> bytes) (gcm_open : bytes -> bytes -> bytes -> option bytes)
+         (aes_ctr : bytes -> bytes -> bytes -> bytes) (hmac : hash -> bytes -> bytes -> bytes)
+         (mk : bytes) (h : hash) (dk : nat) (th : hash) (tag cseg foff : nat) (salt prefix aad p : bytes),
+    length prefix = nonce_prefix_size ->
+    let k := CtrHmac mk h dk th tag cseg foff in
+    let sk := derive hkdf k salt aad in
+    forall (sk' : bytes * bytes) (N c s : bytes),
+      length N = 16 ->
+      seg_dec gcm_open aes_ctr hmac k sk' N c = Some s ->
+      ~ written hkdf gcm_seal aes_ctr hmac k salt prefix aad p sk' N c ->
+      let body := firstn (length c - tag) c in
+      let t := skipn (length c - tag) c in
+      (t = firstn tag (hmac th (snd sk') (N ++ body)) /\
+       ~ maced hkdf aes_ctr mk h dk th tag cseg foff salt prefix aad p (snd sk') (N ++ body)) \/
+      (snd sk' = snd sk /\ fst sk' <> fst sk).
+Proof.
+  intros hkdf gcm_seal gcm_open aes_ctr hmac mk h dk th tag cseg foff salt prefix aad p Hp k sk sk' N c s HN Hd Hnw.
+  exact (ctrhmac_seg_forgery_is_hmac_forgery hkdf gcm_seal gcm_open aes_ctr hmac mk h dk th tag cseg foff salt prefix aad p
+           Hp sk' N c s HN Hd Hnw).
+Qed.
+Print Assumptions C07_ctrhmac_forged_segment_is_hmac_forgery.
+
+Theorem C07_ctrhmac_key_manipulation_reduction :
+  forall (hkdf : hash -> bytes -> bytes -> bytes -> nat -> bytes)
+         (gcm_seal : bytes -> bytes -> bytes -> bytes) (gcm_open : bytes -> bytes -> bytes -> option bytes)
+         (aes_ctr : bytes -> bytes -> bytes -> bytes) (hmac : hash -> bytes -> bytes -> bytes)
+         (mk : bytes) (h : hash) (dk : nat) (th : hash) (tag cseg foff : nat) (salt prefix aad p : bytes),
+    let k := CtrHmac mk h dk th tag cseg foff in
+    length prefix = nonce_prefix_size -> key_valid k = true -> length salt = k_dk k ->
+    (N.of_nat (length (segments (k_cseg k - k_tag k) (k_foff k + hdr_len k) p)) <= max_segments)%N ->
+    own_segments_decrypt hkdf gcm_seal gcm_open aes_ctr hmac k salt prefix aad p ->
+    forall (c' : bytes) (F : option nat) (aad' : bytes) (sizes : list nat),
+      let sk := derive hkdf k salt aad in
+      let sk' := derive hkdf k (firstn (k_dk k) (skipn 1 c')) aad' in
+      kgood hkdf gcm_seal aes_ctr hmac k salt prefix aad p c' aad' sizes
+            (key_read hkdf gcm_open aes_ctr hmac src read_full k aad' (mkSrc c' F) sizes) \/
+      (exists N c, In (N, c) (key_presented hkdf gcm_open aes_ctr hmac k aad' (mkSrc c' F) sizes) /\
+                   hmac_forgery hkdf aes_ctr hmac mk h dk th tag cseg foff salt prefix aad p
+                                (snd sk') (N ++ firstn (length c - tag) c) (skipn (length c - tag) c)) \/
+      hkdf_collision hkdf k salt aad c' aad' \/
+      (snd sk' = snd sk /\ fst sk' <> fst sk).
+Proof.
+  intros hkdf gcm_seal gcm_open aes_ctr hmac mk h dk th tag cseg foff salt prefix aad p k Hp Hv Hs Hb Hcorr c' F aad' sizes sk sk'.
+  exact (ctrhmac_key_manipulation_reduction hkdf gcm_seal gcm_open aes_ctr hmac mk h dk th tag cseg foff salt prefix aad p
+           Hp Hv Hs Hb Hcorr c' F aad' sizes).
+Qed.
+Print Assumptions C07_ctrhmac_key_manipulation_reduction.
+
 (* (f') KEYSET-LEVEL ROUND TRIP.  Under the correctness laws of C07_key_roundtrip,
    for every keyset (all keys valid) that contains k ANYWHERE and whose other
-   keys reject the beginning of the honest stream C (law 4 at C): the
+   keys do not accept the first segment they read from the honest stream C: the
    keyset-level reader behaves on C exactly as the single-key reader of k - for
    every sequence of Read sizes it yields p then EOF, never an error. *)
 Theorem C07_keyset_roundtrip :
@@ -465,12 +599,7 @@ Theorem C07_keyset_roundtrip :
              encode_stream (seg_enc gcm_seal aes_ctr hmac k (derive hkdf k salt aad)) (k_nonce_size k) prefix seg off p in
     (N.of_nat (length ss) <= max_segments)%N ->
     (forall ki, In ki keys -> key_valid ki = true) -> In k keys ->
-    (forall ki, In ki keys ->
-       ki = k \/
-       forall last c, (exists b, skipn (hdr_len ki) C = c ++ b) ->
-         seg_dec gcm_open aes_ctr hmac ki (derive hkdf ki (firstn (k_dk ki) (skipn 1 C)) aad)
-                 (nonce_of (k_nonce_size ki) (firstn nonce_prefix_size (skipn (1 + k_dk ki) C)) 0%N last) c
-         = None) ->
+    (forall ki, In ki keys -> ki = k \/ ~ first_accept hkdf gcm_open aes_ctr hmac ki aad (mkSrc C None)) ->
     forall sizes,
       keyset_read hkdf gcm_open aes_ctr hmac keys aad (mkSrc C None) sizes =
       key_read hkdf gcm_open aes_ctr hmac src read_full k aad (mkSrc C None) sizes /\
@@ -479,8 +608,8 @@ Theorem C07_keyset_roundtrip :
       (Forall (fun n => 0 < n) sizes -> length p + length ss < length sizes -> f = AtEof).
 Proof.
   intros hkdf gcm_seal gcm_open aes_ctr hmac L1 L2 L3 L4 L5 k salt prefix aad p keys Hv Hs Hp seg off ss C Hb Hvs Hin Hlaw sizes.
-  pose proof (keyset_read_honest hkdf gcm_seal gcm_open aes_ctr hmac L1 L2 L3 L4 L5 k salt prefix aad p Hv Hs Hp Hb
-                keys Hvs Hin Hlaw sizes) as E.
+  pose proof (keyset_read_honest hkdf gcm_seal gcm_open aes_ctr hmac k salt prefix aad p Hv Hs Hp Hb keys Hvs
+                L1 L2 L3 L4 L5 Hin Hlaw sizes) as E.
   split; [exact E|].
   unfold C, seg, off, ss. fold (key_ciphertext hkdf gcm_seal aes_ctr hmac k salt prefix aad p) in *.
   rewrite E.
@@ -488,44 +617,66 @@ Proof.
 Qed.
 Print Assumptions C07_keyset_roundtrip.
 
-(* its premises are inhabited: a segment cipher that is correct for all keys,
-   nonces and segments (toy checksum cipher with a 16-byte tag), keyset
-   [decoy with the parameters of k; k], law 4 checked over every prefix *)
-Example C07_keyset_roundtrip_premises_inhabited :
+(* ONE INSTANCE FOR ALL OF THE ABOVE (proofs/StreamKeyExamples.v): an injective
+   key derivation, a toy segment cipher that is correct for all keys, nonces and
+   segments (so the premises of C07_key_roundtrip / C07_keyset_roundtrip hold),
+   the keyset [decoy with the parameters of k; k].  For the honest stream and for
+   each of twelve tampered inputs (every header field, first / last segment,
+   cut inside the header, last segment dropped, a byte appended, other / empty
+   associated data) the per-instance premises of C07_key_manipulation_detected
+   and C07_keyset_manipulation_detected hold (checked by computation over the
+   presented triples), and the outcomes are as computed. *)
+Example C07_one_instance :
   ((forall k n p, length (ex_seal k n p) = length p + 16) /\
-   (forall k n p, hn_open k n (ex_seal k n p) = Some p) /\
+   (forall k n p, ex_open k n (ex_seal k n p) = Some p) /\
    (forall k iv x, length (ex_ctr k iv x) = length x) /\
    (forall k iv x, ex_ctr k iv (ex_ctr k iv x) = x) /\
-   (forall h k m, length (hn_hmac h k m) = digest_size h)) /\
-  other_keys_law ex_hkdf hn_open ex_ctr hn_hmac ex_k [ex_k2; ex_k] hn_ct ex_aad /\
-  keyset_read ex_hkdf hn_open ex_ctr hn_hmac [ex_k2; ex_k] ex_aad (mkSrc hn_ct None) [3; 0; 3; 3; 3; 3] = (ex_p, AtEof).
-Proof. split; [exact hn_laws|]. split; [exact hn_keys_law|exact hn_keyset_honest]. Qed.
-
-(* the laws are inhabited (injective key derivation, ideal segment AEAD that
-   accepts exactly what was sealed under the one session key), for the keyset
-   [decoy with the same parameters; k] too; honest and tampered streams
-   (every header field, segments, truncation, appended byte, other associated
-   data) compute as stated: StreamKeyExamples.ex_runs *)
-Example C07_key_laws_inhabited :
+   (forall h k m, length (ex_hmac h k m) = digest_size h)) /\
   key_valid ex_k = true /\ length ex_salt = k_dk ex_k /\ length ex_prefix = nonce_prefix_size /\
-  seg_auth_law ex_hkdf ex_seal ex_gopen ex_ctr ex_hmac ex_k ex_salt ex_prefix ex_aad ex_p /\
-  (forall salt' aad', other_key_law ex_hkdf ex_gopen ex_ctr ex_hmac ex_k ex_salt ex_aad salt' aad') /\
-  (forall salt' aad', hkdf_no_collision ex_hkdf ex_k ex_salt ex_aad salt' aad') /\
-  (forall c' aad', other_keys_law ex_hkdf ex_gopen ex_ctr ex_hmac ex_k [ex_k2; ex_k] c' aad') /\
-  let sz := [3; 0; 3; 3; 3; 3] in
-  ex_read ex_aad ex_ct sz = (ex_p, AtEof) /\
-  ex_read ex_aad (flip 0 ex_ct) sz = ([], Failed) /\               (* header length byte *)
-  ex_read ex_aad (flip 16 ex_ct) sz = ([], Failed) /\              (* salt *)
-  ex_read ex_aad (flip 17 ex_ct) sz = ([], Failed) /\              (* nonce prefix *)
-  ex_read ex_aad (flip 61 ex_ct) sz = ([1; 2; 3; 4]%N, Failed) /\  (* last segment *)
-  ex_read [5; 7]%N ex_ct sz = ([], Failed) /\                      (* other associated data *)
-  ex_ksread ex_aad ex_ct sz = (ex_p, AtEof) /\                     (* keyset [decoy; k] *)
-  ex_ksread ex_aad (flip 16 ex_ct) sz = ([], Failed) /\
-  ex_ksread [5; 7]%N ex_ct sz = ([], Failed).
+  (forall ki, In ki ex_keys -> key_valid ki = true) /\ In ex_k ex_keys /\
+  own_segments_decrypt ex_hkdf ex_seal ex_open ex_ctr ex_hmac ex_k ex_salt ex_prefix ex_aad ex_p /\
+  (forall a c, In (a, c) ((ex_aad, ex_ct) :: ex_tampered) ->
+     (forall N c0, In (N, c0) (key_presented ex_hkdf ex_open ex_ctr ex_hmac ex_k a (mkSrc c None) ex_sz) ->
+        seg_dec ex_open ex_ctr ex_hmac ex_k (derive ex_hkdf ex_k (firstn (k_dk ex_k) (skipn 1 c)) a) N c0 <> None ->
+        written ex_hkdf ex_seal ex_ctr ex_hmac ex_k ex_salt ex_prefix ex_aad ex_p
+                (derive ex_hkdf ex_k (firstn (k_dk ex_k) (skipn 1 c)) a) N c0) /\
+     ~ hkdf_collision ex_hkdf ex_k ex_salt ex_aad c a /\
+     (forall ki, In ki ex_keys -> ki = ex_k \/ ~ first_accept ex_hkdf ex_open ex_ctr ex_hmac ki a (mkSrc c None))) /\
+  ex_read ex_aad ex_ct ex_sz = (ex_p, AtEof) /\
+  ex_ksread ex_aad ex_ct ex_sz = (ex_p, AtEof) /\
+  map (fun ac => ex_read (fst ac) (snd ac) ex_sz) ex_tampered =
+    [([], Failed); ([], Failed); ([], Failed); ([], Failed); ([], Failed); ([], Failed);
+     ([1; 2; 3; 4]%N, Failed); ([], Failed); ([], Failed); ([1; 2; 3; 4]%N, Failed); ([], Failed); ([], Failed)] /\
+  map (fun ac => ex_ksread (fst ac) (snd ac) ex_sz) ex_tampered =
+  map (fun ac => ex_read (fst ac) (snd ac) ex_sz) ex_tampered.
 Proof.
-  destruct ex_laws as (A & B & C & D & E & G). repeat (split; [assumption|]).
-  split; [exact ex_keys_law|]. vm_compute. repeat split; reflexivity.
+  split; [exact ex_laws|]. repeat (split; [reflexivity|]).
+  split; [intros ki [<-|[<-|[]]]; reflexivity|]. split; [right; left; reflexivity|].
+  split; [exact ex_own|]. split.
+  - intros a c Hin. split; [|split].
+    + exact (no_forgery_b_sound ex_k ex_salt ex_prefix ex_aad ex_p c a ex_sz (ex_no_forgery a c Hin)).
+    + apply ex_no_collision.
+    + exact (ex_decoy_rejects a c Hin).
+  - destruct ex_runs as (_ & _ & A & B & C & D). auto.
 Qed.
+
+(* The events of the reductions are real, not artefacts: AES-CTR-HMAC with a MAC
+   that has no authenticity (constant) accepts a segment whose body was altered,
+   delivers wrong bytes and ends in a clean EOF; the altered pair is presented,
+   decrypts, is not in the writer's log, and its tag is a "valid HMAC" of a
+   message the writer never authenticated. *)
+Example C07_forgery_event_is_real :
+  let c' := flip 24 ex_cth in
+  let N0 := nonce_i ex_kh ex_prefix ex_p 0 in
+  let c0 := firstn 20 (skipn 24 c') in
+  key_read ex_hkdf ex_open ex_ctr ex_hmac src read_full ex_kh ex_aad (mkSrc c' None) ex_sz =
+    ([0; 2; 3; 4; 5; 6]%N, AtEof) /\
+  In (N0, c0) (key_presented ex_hkdf ex_open ex_ctr ex_hmac ex_kh ex_aad (mkSrc c' None) ex_sz) /\
+  seg_dec ex_open ex_ctr ex_hmac ex_kh (derive ex_hkdf ex_kh ex_salt ex_aad) N0 c0 = Some [0; 2; 3; 4]%N /\
+  written_b ex_kh ex_salt ex_prefix ex_aad ex_p (derive ex_hkdf ex_kh ex_salt ex_aad) N0 c0 = false /\
+  skipn 4 c0 = firstn 16 (ex_hmac SHA256 (snd (derive ex_hkdf ex_kh ex_salt ex_aad)) (N0 ++ firstn 4 c0)).
+Proof. exact ex_forgery_event_is_real. Qed.
+
 
 (* (g) CONSTRUCTOR I/O ERRORS.  NewDecryptingReader succeeds iff the source
    neither ends nor fails within the first hdr_len bytes (limit = min(data
@@ -671,6 +822,6 @@ Print Assumptions C07_unreader_read_full_loop_is_urfull.
 Example C07_short_reads_compute :
   let sc := mkSched (fun i => 1 + i mod 3) (fun _ => true) in
   (forall i, 0 < sz sc i) /\
-  key_read ex_hkdf ex_gopen ex_ctr ex_hmac ssrc (read_full_total (sread sc)) ex_k ex_aad
-           (mkSS 0 (mkSrc ex_ct None)) [3; 0; 3; 3; 3; 3] = (ex_p, AtEof).
+  key_read ex_hkdf ex_open ex_ctr ex_hmac ssrc (read_full_total (sread sc)) ex_k ex_aad
+           (mkSS 0 (mkSrc ex_ct None)) ex_sz = (ex_p, AtEof).
 Proof. exact ex_short_reads. Qed.
